@@ -14,7 +14,7 @@ fn schema_of(types: &[DataType]) -> Schema {
     Schema::new(cols)
 }
 
-// @vt prop=C23 tier=quick bound="decode_key on arbitrary input of 0..=11 bytes whose first byte is a fixed-width type prefix (null, bool, numbers, date/time, uuid, inet, macaddr, enum), or an unknown prefix" outside="longer inputs; the variable-width / recursive prefixes (c23_decode_key_text_blob, c23_decode_key_nested)" timeout=900
+// @vt prop=C23 tier=quick bound="decode_key on arbitrary input of 0..=11 bytes whose first byte is a fixed-width type prefix (null, bool, numbers, date/time, uuid, inet, macaddr, enum), or an unknown prefix" outside="longer inputs; the variable-width / recursive prefixes (c23_decode_key_text_blob, c23_decode_key_nested)" timeout=1800
 vt_proof! { unwind = 4; fn c23_decode_key_fixed_prefixes() {
     let mut data: [u8; 11] = kani::any();
     let n: usize = kani::any(); kani::assume(n <= 11);
@@ -27,7 +27,7 @@ vt_proof! { unwind = 4; fn c23_decode_key_fixed_prefixes() {
     kani::cover!(p == 0x41 && n == 3, "w:truncated_inet");
 }}
 
-// @vt prop=C23 tier=quick bound="decode_key on arbitrary input of 1..=8 bytes starting with the TEXT or BLOB prefix (escape sequences, truncated escapes, invalid UTF-8)" outside="longer inputs" timeout=900
+// @vt prop=C23 tier=quick bound="decode_key on arbitrary input of 1..=8 bytes starting with the TEXT or BLOB prefix (escape sequences, truncated escapes, invalid UTF-8)" outside="longer inputs" timeout=1800
 vt_proof! { unwind = 10; fn c23_decode_key_text_blob() {
     let mut data: [u8; 8] = kani::any();
     let n: usize = kani::any(); kani::assume(n >= 1 && n <= 8);
@@ -37,7 +37,7 @@ vt_proof! { unwind = 10; fn c23_decode_key_text_blob() {
     else { data[0] = 0x21; let r = core::mem::ManuallyDrop::new(decode_key(&data[..n])); if let Ok((_, used)) = &*r { assert!(*used <= n, "role=decode_key_consumes_within_input"); } else { kani::cover!(n == 8, "w:blob_without_terminator"); } }
 }}
 
-// @vt prop=C23 tier=quick bound="RecordView over arbitrary record bytes of 2..=9 bytes, schema (int4, blob): is_null and both getters" outside="longer records; other schemas (thorough: 4 columns)" timeout=1200 mem=16
+// @vt prop=C23 tier=quick bound="RecordView over arbitrary record bytes of 2..=9 bytes, schema (int4, blob): is_null and both getters" outside="longer records; other schemas (thorough: 4 columns)" timeout=1800 mem=16
 vt_proof! { unwind = 11; fn c23_record_view_arbitrary_bytes() {
     let schema = core::mem::ManuallyDrop::new(schema_of(&[DataType::Int4, DataType::Blob]));
     let data: [u8; 9] = kani::any();
@@ -72,7 +72,7 @@ vt_proof! { unwind = 12; fn c23_record_view_arbitrary_bytes_4col() {
     }
 }}
 
-// @vt prop=C23 tier=quick bound="PageHeader::from_bytes / validate_page on arbitrary 16-byte headers (rest of the page zero); WalFrameHeader accessors on arbitrary 32 bytes" outside="page bodies (c23_leaf_accessors_arbitrary_page)" timeout=600
+// @vt prop=C23 tier=quick bound="PageHeader::from_bytes / validate_page on arbitrary 16-byte headers (rest of the page zero); WalFrameHeader accessors on arbitrary 32 bytes" outside="page bodies (c23_leaf_accessors_arbitrary_page)" timeout=1800
 vt_proof! { unwind = 4; fn c23_page_and_wal_headers() {
     let mut page = [0u8; turdb::storage::PAGE_SIZE];
     let h: [u8; 16] = kani::any();
@@ -87,7 +87,7 @@ vt_proof! { unwind = 4; fn c23_page_and_wal_headers() {
     assert!(e.is_err(), "role=short_header_is_an_error");
 }}
 
-// @vt prop=C23 tier=quick bound="catalog constraint decoder on arbitrary input of 0..=9 bytes at position 0: every constraint tag (NOT NULL, PK, UNIQUE, FOREIGN KEY with names and the optional 2-byte action trailer, CHECK, AUTO_INCREMENT, unknown tags)" outside="longer inputs; positions > 0; the rest of the catalog file" timeout=1200 mem=16
+// @vt prop=C23 tier=quick bound="catalog constraint decoder on arbitrary input of 0..=9 bytes at position 0: every constraint tag (NOT NULL, PK, UNIQUE, FOREIGN KEY with names and the optional 2-byte action trailer, CHECK, AUTO_INCREMENT, unknown tags)" outside="longer inputs; positions > 0; the rest of the catalog file" timeout=1800 mem=16
 vt_proof! { unwind = 12; fn c23_catalog_constraint_decoder() {
     use turdb::schema::persistence::verif_hooks::deserialize_constraint;
     let mut data: [u8; 9] = kani::any();
@@ -104,7 +104,7 @@ vt_proof! { unwind = 12; fn c23_catalog_constraint_decoder() {
     kani::cover!(t == 3 && n == 6, "w:foreign_key_with_one_trailing_byte");
 }}
 
-// @vt prop=C23 tier=quick feat=sp bound="LeafNode::value_at / value_len_at / key_at on a leaf page whose slot 0 points at a cell with a 2-byte key followed by 9 ARBITRARY bytes (any varint, incl. 9-byte forms encoding lengths up to 2^64-1); LeafNodeMut::free_space on an arbitrary header" outside="arbitrary slot offsets (symbolic page offsets); other accessors" timeout=900 mem=16
+// @vt prop=C23 tier=quick feat=sp bound="LeafNode::value_at / value_len_at / key_at on a leaf page whose slot 0 points at a cell with a 2-byte key followed by 9 ARBITRARY bytes (any varint, incl. 9-byte forms encoding lengths up to 2^64-1); LeafNodeMut::free_space on an arbitrary header" outside="arbitrary slot offsets (symbolic page offsets); other accessors" timeout=1800 mem=16
 vt_proof! { unwind = 4; fn c23_leaf_accessors_corrupt_cell() {
     use turdb::btree::{LeafNode, LeafNodeMut};
     let mut page = [0u8; turdb::storage::PAGE_SIZE];
